@@ -213,6 +213,7 @@ def run(prog, rep, tier):
            'repair can return a status other than UnfinishedFiles although some files were closed incomplete', body.loc())
 
     r02_5(prog, rep)
+    r02_6(prog, rep)
 
 
 EXACT_READS = {'read_exact', 'read_u8', 'read_u16', 'read_u32', 'read_u64', 'read_u128', 'read_i8', 'read_i16', 'read_i32', 'read_i64',
@@ -289,6 +290,42 @@ def r02_5(prog, rep):
                    'a structure parser obtains a field with %s and never tests how many bytes arrived: a field cut by truncation is accepted as a shorter one '
                    '(repair would output a name / value that the original archive does not contain)' % (t.cmethod or cn), body.loc(b.idx))
     rep.floor('R02.5', n, 12, 'source reads in the block / header / footer parsers')
+
+
+def r02_6(prog, rep):
+    """what the encryption reader exposes as the plaintext of a chunk is at most CHUNK_SIZE bytes long: the vector stored in chunk_cache (and handed
+    to the cipher) never includes bytes of the 16-byte tag that follows the chunk, whatever the number of bytes the truncated source delivered"""
+    mla = prog.crates['mla']
+    cap = mla.const_int('layers::encrypt::CHUNK_SIZE') or mla.const_int('CHUNK_SIZE')
+    n = 0
+    for body in mla.bodies:
+        if not norm(body.defpath).startswith('layers::encrypt::EncryptionLayerInternal::') or body.kind == 'Closure':
+            continue
+        for bl in body.blocks:
+            if bl.cleanup:
+                continue
+            for i, st in enumerate(bl.stmts):
+                if st.kind == 'assign' and place_fields(st.place)[-1:] == ['chunk_cache'] and st.rv.r == 'use' and st.rv.ops[0].place is not None:
+                    # self.chunk_cache = Cursor::new(data)
+                    d = unique_def(body, st.rv.ops[0].place[0])
+                    if d is None or d[2] != 'call' or d[3].cmethod != 'new' or 'Cursor' not in cnorm(d[3]):
+                        continue
+                    a0 = d[3].args[0]
+                    if a0.place is None:
+                        continue   # Cursor::new(Vec::new()) in constructors
+                    sds = [x for x in body.defs.get(a0.place[0], []) if not (x[2] == 'assign' and x[3].place[1])]
+                    src = sds[0] if len(sds) == 1 else None
+                    if src is not None and src[2] == 'call' and src[3].cmethod in ('new', 'with_capacity') and not [e for e in mutarg_defs(body).get(a0.place[0], []) if e[0] != src[0]]:
+                        continue   # an empty vector
+                    n += 1
+                    rep.fn(body)
+                    ub, why = census.vec_len_ub(prog, body, a0.place[0], d[0])
+                    ok = ub is not None and cap is not None and ub <= cap
+                    rep.ob('R02.6', ok, 'R02.6|%s|chunk_cache|plaintext-at-most-chunk-size' % body.nkey,
+                           'the vector stored in chunk_cache is at most %s bytes long (%s)' % (ub, why) if ok else
+                           'the vector stored in chunk_cache can be longer than CHUNK_SIZE=%s (bound: %s; %s): when the source is cut inside a tag, tag bytes are decrypted '
+                           'and handed out as file data' % (cap, ub, why), body.loc(bl.idx, i))
+    rep.floor('R02.6', n, 2, 'stores of a loaded chunk into chunk_cache')
 
 
 def thorough_extra(rep, verif, repo):
